@@ -12,7 +12,7 @@ THEOREMS = ["Props.C04." + t for t in [
     "typedef_cycle_rejected", "undefined_const_rejected", "undefined_or_ambiguous_const_rejected",
     "include_cycle_rejected", "abstract_stage_rejected", "reject_writes_nothing", "no_crash",
     "no_exit0_without_output_partial", "no_exit0_without_output", "union_second_default_regression",
-    "typedef_cycle_ident_regression", "dup_argument_regression", "argument_default_regression"]]
+    "typedef_cycle_ident_regression", "dup_argument_regression", "argument_default_regression", "ambiguous_dotted_include_regression"]]
 
 PARTIAL = [
     "all rule theorems are full on the model; what stays partial is the model's reach:",
@@ -31,7 +31,7 @@ def run(ctx):
     ctx.trusted += [
         "translator harness/cmd/c04 extract (go/ast over semantic/checker.go, semantic/semantic.go, main.go, sdk/invoke.go)",
         "harness/cmd/c04: encoding of parser.Thrift into the model's Program (encode.go), classification of process observations",
-        "OS process semantics (exit status, files under the working directory); 'hang' = no exit within 20 s and, run again, within 300 s",
+        "OS process semantics (exit status, files under the working directory); 'hang' = no exit within 20 s and, run again, within 60 s",
     ]
     ctx.assumptions += [
         "syntax (PEG + walker), include search, flag parsing, backend selection/options and backend constant typing are "
